@@ -91,6 +91,7 @@ fn run_tokens(toks: &[&str]) -> String {
         "SCHED" => chan_now::sched(args),
         "SCHEDX" => chan_now::schedx(args),
         "SCHEDT" => chan_now::schedt(args),
+        "STRESS" => chan_now::stress(args),
         "VALIDATE" => chan_ops::validate(args),
         "OPS" => chan_ops::ops(args),
         "OPSA" => chan_ops::ops(args), // model side: update_extensions written with the block-level operations
